@@ -54,8 +54,8 @@ def ice_params(rng, default_of=None):
     n0 = rng.uniform(1.6, 1.9)
     k = rng.uniform(0.2, min(0.6, n0 - 1.1))
     a = 10 ** rng.uniform(-2.3, -1.5)
-    return dict(cls=rng.choice(ICE_CLASSES), n0=n0, k=k, a=a, lo=-rng.choice([1500.0, 2850.0, 3000.0]), hi=0.0,
-                above=1.0, below=None)
+    return dict(cls=rng.choice(ICE_CLASSES), n0=n0, k=k, a=a, lo=-rng.choice([800.0, 1500.0, 2850.0, 3000.0]),
+                hi=rng.choice([0.0, 0.0, -10.0, -20.0, -35.0, -50.0]), above=rng.choice([1.0, None]), below=None)
 
 
 def build_ice(p):
@@ -65,8 +65,17 @@ def build_ice(p):
 
 
 def pick_ice(rng):
-    if rng.random() < 0.6:
+    r = rng.random()
+    if r < 0.45:
         return ice_params(rng, default_of=rng.choice(ICE_CLASSES))
+    if r < 0.65:
+        # the shipped parameters with a valid range that does not start at z = 0 (rays reflect at its top) and a
+        # bottom above the default one
+        p = ice_params(rng, default_of=rng.choice(ICE_CLASSES))
+        p["hi"] = rng.choice([-10.0, -20.0, -35.0, -50.0])
+        p["lo"] = rng.choice([p["lo"], -1200.0, -2000.0])
+        p["above"] = rng.choice([1.0, None])
+        return p
     return ice_params(rng)
 
 
@@ -194,11 +203,11 @@ def corr_formulas(ctx, escalate=1):
         for _ in range(npts):
             zc = rng.random()
             if zc < 0.55:
-                z = rng.uniform(max(zu, p["lo"]), -0.01)
+                z = rng.uniform(max(zu, p["lo"]), p["hi"] - 0.01)
             elif zc < 0.7:
                 z = zu + rng.uniform(-2, 2)
             else:
-                z = rng.uniform(p["lo"], -0.01)
+                z = rng.uniform(p["lo"], p["hi"] - 0.01)
             nz = nprof(p, z)
             bc = rng.random()
             if bc < 0.6:
@@ -224,8 +233,8 @@ def corr_formulas(ctx, escalate=1):
                     expect.append([v])
                     meta.append({"fn": nm, "deep": deep, "ice": p, "z": z, "beta": beta, "beta_class": bcls})
             # the uniform correction with the three integrands: random endpoints on either side of z_uniform
-            z0 = rng.choice([rng.uniform(p["lo"], zu), rng.uniform(zu, -0.01), zu])
-            z1 = rng.choice([rng.uniform(p["lo"], zu), rng.uniform(zu, -0.01), zu])
+            z0 = rng.choice([rng.uniform(p["lo"], zu), rng.uniform(zu, p["hi"] - 0.01), zu])
+            z1 = rng.choice([rng.uniform(p["lo"], zu), rng.uniform(zu, p["hi"] - 0.01), zu])
             bmax = min(nprof(p, z0), nprof(p, z1))
             b2 = rng.uniform(0.006, bmax * (1 - 1e-4)) if rng.random() < 0.85 else rng.uniform(0, 0.005)
             br = "%s/%s" % ("below" if z0 < zu else "above", "below" if z1 < zu else "above")
@@ -291,7 +300,7 @@ def corr_formulas(ctx, escalate=1):
 def geometry(rng, p, kind):
     lo = p["lo"]
     zu = max(z_uniform_of(p), lo + 20)
-    top = -1.0
+    top = p["hi"] - 1.0
     if kind == "shallow":
         za, zb = rng.uniform(max(zu, lo) + 1, top), rng.uniform(max(zu, lo) + 1, top)
     elif kind == "deep":
@@ -647,9 +656,19 @@ def probes_and_e2e(ctx, do_model=True, escalate=1):
 
 
 def fixed_findings(ctx):
-    """The documented open findings, probed at fixed inputs so they are evaluated on every run."""
+    """The documented open findings, probed at fixed inputs so they are evaluated on every run; plus surface-reflected
+    solutions in ice whose valid range ends below z = 0 (reflection at the top of the range, beta between n(0) and n(top))."""
     icep = ice_params(ctx.rng, default_of="AntarcticIce")
     stats = {}
+    ice20 = dict(icep, hi=-20.0, above=None)
+    for rho in (550.0, 600.0, 650.0, 700.0):
+        g = {"kind": "shallow", "z_from": -300.0, "z_to": -150.0, "rho": rho, "phi": 0.0, "x0": 0.0, "y0": 0.0}
+        tr = make_tracer("SpecializedRayTracer", g, ice20, 1.0)
+        paths, err = solve(tr)
+        ctx.case(key=("fixed-top20", rho))
+        for key, what in judge(ctx, "SpecializedRayTracer", 1.0, ice20, g, paths or [], tr, stats):
+            full = key if key in (K_BETA_TOL, K_LINK, K_LOG1) else "%s:%s:%s:%r:%r:%r" % (key, "SpecializedRayTracer", "AntarcticIce(top -20)", g["z_from"], g["z_to"], g["rho"])
+            ctx.fail(full, what, {"kind": "geometry", "tracer": "SpecializedRayTracer", "dz": 1.0, "ice": ice20, "g": g})
     for g in ({"kind": "vertical", "z_from": -2000.0, "z_to": -100.0, "rho": 2.0, "phi": 0.3, "x0": 0.0, "y0": 0.0},
               {"kind": "vertical", "z_from": -300.0, "z_to": -100.0, "rho": 0.5, "phi": 1.0, "x0": 5.0, "y0": -5.0},
               # the witness of the open finding F10 (cancellation in log_term_1): always evaluated
